@@ -572,6 +572,15 @@ class DoIPConnection:
             self.reader.feed_eof()
             await self.close()
 
+    def _requeue(self, frames: list[tuple[Any, Any]]) -> None:
+        # The skipped frames arrived before everything that is still in the queue,
+        # so they go back in front of it to preserve the order of arrival.
+        later = []
+        while not self._read_queue.empty():
+            later.append(self._read_queue.get_nowait())
+        for item in frames + later:
+            self._read_queue.put_nowait(item)
+
     async def read_frame_unsafe(self) -> DoIPFrame:
         # Avoid waiting on the queue forever when
         # the connection has been terminated.
@@ -602,8 +611,7 @@ class DoIPConnection:
                 continue
 
             # Do not consume unexpected packets, but re-add them to the queue for other consumers
-            for item in unexpected_packets:
-                await self._read_queue.put(item)
+            self._requeue(unexpected_packets)
 
             return hdr, payload
 
@@ -642,8 +650,7 @@ class DoIPConnection:
                 continue
 
             # Do not consume unexpected packets, but re-add them to the queue for other consumers
-            for item in unexpected_packets:
-                await self._read_queue.put(item)
+            self._requeue(unexpected_packets)
 
             if isinstance(payload, DiagnosticMessageNegativeAcknowledgement):
                 raise DoIPNegativeAckError(payload.ACKCode)
@@ -661,8 +668,7 @@ class DoIPConnection:
                 continue
 
             # Do not consume unexpected packets, but re-add them to the queue for other consumers
-            for item in unexpected_packets:
-                await self._read_queue.put(item)
+            self._requeue(unexpected_packets)
 
             if payload.RoutingActivationResponseCode != RoutingActivationResponseCodes.Success:
                 raise DoIPRoutingActivationDeniedError(payload.RoutingActivationResponseCode)
